@@ -24,9 +24,14 @@ SCRIPT = [("open", 1), ("write", 1), ("write", 1), ("open", 2), ("write", 2), ("
 class L4Run:
     """one C10 execution: records flow from side `a` to the other side"""
 
-    def __init__(self, a, seed):
+    def __init__(self, a, seed, real=False):
         self.a, self.b = a, ("F" if a == "L" else "L")
-        self.w = DilMidWorld()
+        if real:
+            from ..dilreal import RealLinkWorld
+            self.w = RealLinkWorld()
+        else:
+            self.w = DilMidWorld()
+        self.real = real
         self.w.connect()
         self.w.listen(self.b, "p")
         self.w.pump()
@@ -72,7 +77,30 @@ class L4Run:
                 if not w.mailbox_pump():
                     break
             w.connect()
+        elif a == "ReconnectA":
+            # the Leader (= side a) selects the new connection: KCM, then its whole queue again; the KCM makes
+            # the Follower's end a candidate
+            for _ in range(4):
+                if not w.mailbox_pump():
+                    break
+            w.handshake()
+            w.select(self.a)
+            while w.pending[self.a].out and not w.pending[self.b].candidate:
+                w.deliver(self.a)
+        elif a == "SelectB":
+            w.select(self.b)
         w.settle()
+
+    def run_out(self):
+        """after the last step of a witness: observe losses, reconnect if needed, select, deliver everything"""
+        w = self.w
+        if not w.up:
+            w.observe_loss(self.a)
+            w.observe_loss(self.b)
+            self.do(("ReconnectA", 0) if self.real else ("Reconnect", 0))
+        if self.real and w.can_select(self.b):
+            self.do(("SelectB", 0))
+        w.pump()
 
     def _deliver_until(self, frm, kinds):
         s = self.w.sides[frm]
@@ -343,13 +371,15 @@ def run(prop, tier):
         wd.gen_tables()
         cov["tables"] = wd.tables_info
         if prop == "C10":
-            cfgs = {"r3c2": dict(MaxRecords=3, MaxCuts=2), "r5c2": dict(MaxRecords=5, MaxCuts=2)}
+            cfgs = {"r3c2": dict(MaxRecords=3, MaxCuts=2, Window=False), "r5c2": dict(MaxRecords=5, MaxCuts=2, Window=False),
+                    "w3c2": dict(MaxRecords=3, MaxCuts=2, Window=True), "w5c2": dict(MaxRecords=5, MaxCuts=2, Window=True)}
             if not quick:
-                cfgs["r8c3"] = dict(MaxRecords=8, MaxCuts=3)
+                cfgs["r8c3"] = dict(MaxRecords=8, MaxCuts=3, Window=False)
+                cfgs["w7c3"] = dict(MaxRecords=7, MaxCuts=3, Window=True)
             for name, consts in cfgs.items():
                 m = "MC_C10_" + name
                 common.write_model(wd, m, "DilationL4", consts, invariants=["InOrderOnce", "NothingForgotten", "Goal"],
-                                   properties=["EventuallyAll"] if name == "r3c2" else [])
+                                   properties=["EventuallyAll"] if name in ("r3c2", "w3c2") else [])
                 r = tlc.run(m + ".tla", m + ".cfg", cwd=wd.path, timeout=1800)
                 cov["tlc_configs"][name] = {"distinct_states": r.distinct, "states_generated": r.generated, "depth": r.depth,
                                             "wall_s": round(r.wall, 1), "result": "ok" if r.ok else (r.violated or "error")}
@@ -357,16 +387,34 @@ def run(prop, tier):
                 transitions += r.generated
                 if not r.ok and not r.violated:
                     raise RuntimeError("TLC failed on %s: %s" % (m, r.error or r.stdout[-1500:]))
-            g = "MC_C10_gen"
-            common.write_model(wd, g, "DilationL4", dict(MaxRecords=8, MaxCuts=3))
-            simdir = wd.file("sim")
-            os.makedirs(simdir)
-            tlc.run(g + ".tla", g + ".cfg", cwd=wd.path, workers=6, simulate={"num": (120 if quick else 1200) // 6, "file": os.path.join(simdir, "tr")},
-                    depth=45, seed=seed + 10, timeout=900)
-            for tr in tlc.read_sim_traces(os.path.join(simdir, "tr")):
-                for a in ("L", "F"):
+            behaviours = []      # (behaviour, window?, origin)
+            for win in (False, True):
+                g = "MC_C10_gen_w" if win else "MC_C10_gen"
+                common.write_model(wd, g, "DilationL4", dict(MaxRecords=8, MaxCuts=3, Window=win))
+                simdir = wd.file("sim_w" if win else "sim")
+                os.makedirs(simdir)
+                tlc.run(g + ".tla", g + ".cfg", cwd=wd.path, workers=6, simulate={"num": (120 if quick else 1200) // 6, "file": os.path.join(simdir, "tr")},
+                        depth=45, seed=seed + 10, timeout=900)
+                behaviours += [(tr, win, "tlc-sim") for tr in tlc.read_sim_traces(os.path.join(simdir, "tr"))]
+            # coverage goals (shortest behaviours reaching them): several records waiting in the candidate connection ...
+            goals = {
+                "three_waiting_at_select": "cand /\\ Len(inq) >= 3",
+                "old_and_new_waiting": "cand /\\ Len(inq) >= 2 /\\ inq[1] + 1 <= wm /\\ inq[Len(inq)] + 1 > wm",
+                "cut_while_waiting": "~linkUp /\\ cand /\\ Len(inq) >= 1",
+                "selected_after_cut": "~linkUp /\\ connB /\\ last[1] = \"SelectB\" /\\ last[2] >= 1",
+                "second_window_waiting": "cuts >= 2 /\\ cand /\\ Len(inq) >= 2",
+                "all_delivered_after_two_windows": "cuts >= 2 /\\ connB /\\ Len(delivered) >= 5",
+                "send_during_window": "cand /\\ last[1] = \"AppSend\" /\\ Len(inq) >= 1",
+            }
+            wit, unreached = common.witnesses(wd, "DilationL4", dict(MaxRecords=6, MaxCuts=2, Window=True), goals, "MC_C10_goal")
+            cov["witness_goals"] = {"reached": [g_ for g_, _ in wit], "unreached": unreached}
+            for g_, tr in wit:
+                # continue each witness to quiescence so that the waiting records are actually dispatched
+                behaviours.append((tr, True, "tlc-witness:" + g_))
+            for tr, win, origin in behaviours:
+                for a in (("L",) if win else ("L", "F")):
                     tid += 1
-                    run_ = L4Run(a, seed + tid)
+                    run_ = L4Run(a, seed + tid, real=win)
                     drift = None
                     for i, st in enumerate(tr[1:], start=1):
                         try:
@@ -377,10 +425,12 @@ def run(prop, tier):
                         if run_.delivered() != model_l4_delivered(st):
                             drift = {"step": i, "action": st["last"], "diff": ["delivered: spec=%s real=%s" % (st["delivered"], run_.delivered())]}
                             break
+                    if origin.startswith("tlc-witness") and drift is None:
+                        run_.run_out()
                     rec = run_.finish(tid)
-                    rec["origin"] = "tlc-sim"
+                    rec["origin"] = origin
                     records.append(rec)
-                    meta[tid] = {"schedule": run_.schedule, "direction": a}
+                    meta[tid] = {"schedule": run_.schedule, "direction": a, "real_l2": win}
                     if drift:
                         ndrift += 1
                         if len(cov["drift"]) < 6:
